@@ -712,3 +712,58 @@ Proof.
     assert (x1 = 0 \/ x1 = 1 \/ x1 = 2)%Z as [->|[->| ->]] by lia;
     (assert (x2 = 0 \/ x2 = 1 \/ x2 = 2)%Z as [->|[->| ->]] by lia); vm_compute in He; discriminate He.
 Qed.
+
+(* finding (C12 #8 at this call site): the multiplicity gets ceil(log2(total+1)) bits; with total = 1 and
+   max_multiplicity = 2 the multiplicity 2 cannot be represented: {1/4, 3/4} generates 1/2 = 2 * 1/4 and 1/4,
+   but the model for k = 2 has no satisfying assignment *)
+Theorem mgs_multiplicity_bits_refuted : exists (I : mgs_inst) (k : nat) (g : list Q),
+  m_mult I = 2%nat /\ length g = k /\ genset (m_mult I) (m_numbers I) (m_total I) g /\
+  forall a, ~ sat a (encode_mgs I k).
+Proof.
+  exists {| m_numbers := [1 # 2; 1 # 4]; m_total := 1; m_int := false; m_mult := 2; m_parts := None |}, 2%nat, [1 # 4; 3 # 4].
+  split; [reflexivity|]. split; [reflexivity|]. split.
+  - cbn [m_mult m_numbers m_total]. split; [repeat constructor; lra|]. split; [vm_compute; reflexivity|].
+    intros a [<-|[<-|[]]].
+    + exists [2; 0]%Z. split; [reflexivity|]. split; [repeat (apply Forall_cons; [lia|]); apply Forall_nil|]. vm_compute; reflexivity.
+    + exists [1; 0]%Z. split; [reflexivity|]. split; [repeat (apply Forall_cons; [lia|]); apply Forall_nil|]. vm_compute; reflexivity.
+  - intros a Hsat. apply mgs_enc_sound in Hsat; [|cbn; lia]. destruct Hsat as (_ & HT & HJ & _ & _).
+    cbn [m_total m_numbers] in HT, HJ.
+    change (layers 2) with [0; 1]%N in *. cbn [sumq] in HT.
+    destruct (HJ 0%N (1 # 2) (or_introl eq_refl)) as [HX0 HS0].
+    destruct (HJ 1%N (1 # 4) (or_intror (or_introl eq_refl))) as [HX1 HS1].
+    cbn [sumq] in HS0, HS1.
+    destruct (HX0 0%N (or_introl eq_refl)) as (z00 & E00 & R00 & B00 & P00).
+    destruct (HX0 1%N (or_intror (or_introl eq_refl))) as (z10 & E10 & R10 & B10 & P10).
+    destruct (HX1 0%N (or_introl eq_refl)) as (z01 & E01 & R01 & B01 & P01).
+    destruct (HX1 1%N (or_intror (or_introl eq_refl))) as (z11 & E11 & R11 & B11 & P11).
+    specialize (B00 eq_refl). specialize (B10 eq_refl). specialize (B01 eq_refl). specialize (B11 eq_refl).
+    change (2 ^ Z.of_nat (nbits _))%Z with 2%Z in *.
+    rewrite P00, P10, E00, E10 in HS0. rewrite P01, P11, E01, E11 in HS1.
+    assert (z00 = 0 \/ z00 = 1)%Z as [->| ->] by lia; assert (z10 = 0 \/ z10 = 1)%Z as [->| ->] by lia;
+    assert (z01 = 0 \/ z01 = 1)%Z as [->| ->] by lia; assert (z11 = 0 \/ z11 = 1)%Z as [->| ->] by lia;
+    change (inject_Z 0) with 0 in *; change (inject_Z 1) with 1 in *; lra.
+Qed.
+
+(* ---- boolean deciders for closed instances (non-vacuity examples) ---- *)
+Lemma Forall_dec_cols a cs : forallb (fun c => Qle_bool (clb c) (a (cvar c)) && Qle_bool (a (cvar c)) (cub c) &&
+                                         (negb (cint c) || (Zpos (Qden (Qred (a (cvar c)))) =? 1)%Z)) cs = true ->
+  Forall (sat_col a) cs.
+Proof.
+  intros H. rewrite forallb_forall in H. apply Forall_forall. intros c Hc. specialize (H c Hc).
+  apply andb_true_iff in H. destruct H as [H H3]. apply andb_true_iff in H. destruct H as [H1 H2].
+  apply Qle_bool_iff in H1. apply Qle_bool_iff in H2. split; [exact H1|]. split; [exact H2|].
+  intros Hi. rewrite Hi in H3. cbn [negb orb] in H3. apply Z.eqb_eq in H3.
+  exists (Qnum (Qred (a (cvar c)))). rewrite <- (Qred_correct (a (cvar c))) at 1.
+  destruct (Qred (a (cvar c))) as [n d]. cbn [Qnum Qden] in *. injection H3 as ->. reflexivity.
+Qed.
+Definition row_ok (a : var -> Q) (r : row) : bool :=
+  match sns r with
+  | SLe => Qle_bool (eval a (lhs r)) (rhs r)
+  | SGe => Qle_bool (rhs r) (eval a (lhs r))
+  | SEq => Qeq_bool (eval a (lhs r)) (rhs r)
+  end.
+Lemma Forall_dec_rows a rs : forallb (row_ok a) rs = true -> Forall (sat_row a) rs.
+Proof.
+  intros H. rewrite forallb_forall in H. apply Forall_forall. intros r Hr. specialize (H r Hr).
+  unfold row_ok in H. unfold sat_row. destruct (sns r); [apply Qle_bool_iff|apply Qle_bool_iff|apply Qeq_bool_iff]; exact H.
+Qed.
